@@ -9,6 +9,7 @@ COQ = os.path.join(ROOT, "coq")
 WORK = os.path.join(ROOT, "work")
 HARNESS = os.path.join(ROOT, "harness")
 GUARD = "essential_base_verif"
+MAX_BATCH = 16000     # cases per engine invocation (16 shards of at most 1000)
 JOBS = int(os.environ.get("VERIF_JOBS", "16"))
 
 import gen_optable, gen_consts
@@ -221,7 +222,8 @@ def inventory_static(pid):
         out = [("inventory", e) for e in errors]
         for k in new:
             if pid in inventory.props_of(k):
-                out.append(("inventory", "site not accounted for by the model: %s" % k))
+                out.append(("inventory", "site not accounted for by the model: %s (%d such line(s) in this function now: %s)"
+                            % (k, new[k], " | ".join(inventory.EXAMPLES.get(k, [])[:4]))))
         return out
     return fn
 
@@ -331,9 +333,16 @@ def check_property(pid, tier, seed, replay=None):
 
     def run_round(rseed, mult, tag):
         nonlocal evaluations, distinct_nt
-        for es in engines:
-            d = os.path.join(outdir, "%s_%s" % (es.get("name", es["engine"]), tag))
-            meta, out = run_engine(es, rseed, tier, d, only=only, count_mult=mult)
+        for es0 in engines:
+          # large volumes are run as several batches with different seeds so that no single coqc shard grows beyond
+          # a few thousand cases (time and memory stay bounded whatever the tier asks for)
+          total = es0["thorough" if tier == "thorough" else "quick"] * mult
+          nb = 1 if only is not None else max(1, -(-total // MAX_BATCH))
+          for b in range(nb):
+            es = es0 if nb == 1 else dict(es0, quick=-(-total // nb) // mult, thorough=-(-total // nb) // mult)
+            bseed = rseed + 7919 * b
+            d = os.path.join(outdir, "%s_%s%s" % (es.get("name", es["engine"]), tag, "" if nb == 1 else "_b%d" % b))
+            meta, out = run_engine(es, bseed, tier, d, only=only, count_mult=mult)
             if meta is None:
                 corr_errors.append(out)
                 continue
@@ -349,7 +358,7 @@ def check_property(pid, tier, seed, replay=None):
             evs = meta["evals"]
             for k, name in enumerate(evs):
                 for i in ids[k]:
-                    rec = {"engine": es.get("name", es["engine"]), "seed": rseed, "tier": tier, "case_id": i,
+                    rec = {"engine": es.get("name", es["engine"]), "seed": bseed, "tier": tier, "case_id": i,
                            "eval": name, "case": byid.get(i)}
                     (spec_fail if ("spec" in name or name.startswith("sem_")) else mismatch).append(rec)
 
